@@ -22,10 +22,14 @@ theorem prefix_eq (o : WOpts) (rooting : Nat) (weight : Option Str) :
   | none => simp [pre, e1, e2]
   | some w => cases h3 : o.stw <;> simp [pre, e1, e2, e3, e4]
 
-theorem noBracket_of_len (w : Str) (h : ∀ c ∈ w, lenChar c = true) : NoBracket w := by
+theorem slash_not_special : ('/' : Char) ∉ tokSpecial := by decide
+
+theorem noBracket_of_len (w : Str) (h : ∀ c ∈ w, (lenChar c = true ∨ c = '/')) : NoBracket w := by
   intro x hx
   have hns : x ∈ tokSpecial → False := fun hm => by
-    have := lenChar_not_special x hm; rw [h x hx] at this; cases this
+    rcases h x hx with h' | h'
+    · have := lenChar_not_special x hm; rw [h'] at this; cases this
+    · subst h'; exact slash_not_special hm
   constructor
   · cases hh : isCE x with
     | false => rfl
@@ -39,7 +43,7 @@ theorem nb_of_all (c : Str) (h : c.all (fun x => !isCE x && !isCB x) = true) : N
   have := List.all_eq_true.mp h x hx
   simpa using this
 
-theorem noBracket_comments (o : WOpts) (rooting : Nat) (weight : Option Str) (hw : ∀ w, weight = some w → LenOk w) :
+theorem noBracket_comments (o : WOpts) (rooting : Nat) (weight : Option Str) (hw : ∀ w, weight = some w → WeightOk w) :
     ∀ c ∈ comments o rooting weight, NoBracket c := by
   have a : NoBracket "&R".toList := nb_of_all _ (by decide)
   have b : NoBracket "&U".toList := nb_of_all _ (by decide)
@@ -88,7 +92,7 @@ theorem xs_ne_nil (o : WOpts) (t : NT) (h : isBlank (toRT o t) = false) : xs (wr
 /-- tokenizing the written statement: the token kinds are exactly what the writer's callbacks emitted, then `;`;
     the rooting / weight comments are attached to the first token and nothing else carries a comment -/
 theorem statement_tokens' (o : WOpts) (pu : Bool) (hc : Consistent o.ps o.uu pu) (rooting : Nat) (weight : Option Str)
-    (t : NT) (hok : OkT o t) (hll : isBlank (toRT o t) = false) (hw : ∀ w, weight = some w → LenOk w) :
+    (t : NT) (hok : OkT o t) (hll : isBlank (toRT o t) = false) (hw : ∀ w, weight = some w → WeightOk w) :
     ∃ first rest, tokenizeAll pu (writeTree o rooting weight t ++ ['\n']) = ⟨first :: rest, true, false⟩ ∧
       (first :: rest).map kind = view (wrNode o true t) ++ [.semi] ∧
       first.cm = comments o rooting weight ∧ ∀ x ∈ rest, x.cm = [] := by
